@@ -170,7 +170,14 @@ fn account<C: Serialize>(sh: &Mutex<Shared>, case: &C, r: &CaseResult, max_count
         for c in &r.classes {
             g.sample_classes.insert(c.to_string());
         }
-        let v = json!({"case": serde_json::to_value(case).unwrap_or(Value::Null), "nontrivial": r.nontrivial, "classes": r.classes, "summary": r.summary});
+        // keep evidence files small: large cases (e.g. 65535-byte codec inputs) are abbreviated
+        let js = serde_json::to_string(case).unwrap_or_default();
+        let case_v = if js.len() > 3000 {
+            json!({"abbreviated": true, "json_length": js.len(), "json_prefix": js.chars().take(1200).collect::<String>()})
+        } else {
+            serde_json::to_value(case).unwrap_or(Value::Null)
+        };
+        let v = json!({"case": case_v, "nontrivial": r.nontrivial, "classes": r.classes, "summary": r.summary});
         g.samples.push(v);
     }
 }
